@@ -82,7 +82,7 @@ def r3(ctx, rep):
     acc = classes['AccessNode']()
     acc.update(world1=1, world2=2)
     log.clear()
-    it.call(f_read, [model, acc, None])
+    it.safe(f_read, [model, acc, None])
     ok = ('R.add', (1, 2)) in log
     rep.instance(R3, ok=ok, nontrivial='access-node')
     if not ok:
@@ -90,7 +90,7 @@ def r3(ctx, rep):
     comp = classes['SentenceDesignationWorldNode']()
     comp.update(sentence=Obj('compound', constants=frozenset({'c'})), designated=True, world=4)
     log.clear()
-    it.call(f_read, [model, comp, None])
+    it.safe(f_read, [model, comp, None])
     ok = ('R[w]', 4) in log and 'c' in model.constants and len(model.sentences) == 1
     rep.instance(R3, ok=ok, nontrivial='compound-node')
     if not ok:
@@ -133,7 +133,7 @@ def r3(ctx, rep):
             mod = Obj('model', Meta=Obj('Meta', designated_values=D))
             mod.value_of = lambda s: vals[s]
             a = Obj('arg', premises=('p1', 'p2'), conclusion='c')
-            got = bool(it2.call(ic, [mod, a]))
+            got = bool(it2.safe(ic, [mod, a]))
             want = all(v in D for v in pv) and cv not in D
             ok = got == want
             rep.instance(R3, ok=ok, nontrivial=('countermodel', pv, cv))
